@@ -575,7 +575,8 @@ def settle_resources(base, bound=5.0):
 
 
 # ------------------------------------------------------------------ inbound cases: generator and property oracle
-TINY_XML = ['<a/>', '<ok/>', '<r>1</r>', '<a>é</a>', '<b>€</b>', '<c>\U0001F600</c>', '<d>x </d>', '<e a="1">中</e>']
+TINY_XML = ['<a/>', '<ok/>', '<r>1</r>', '<a>é</a>', '<b>€</b>', '<c>\U0001F600</c>', '<d>x </d>', '<e a="1">中</e>', '\ufeff<n/>',
+            '\ufeff<?xml version="1.0"?><o/>']       # a byte order mark is the first character of the text
 PIECE_KINDS = ['whole', 'random', 'adversarial_some', 'adversarial_all', 'fixed4096', 'size1', 'big', 'around_term']
 MODES = ['settle', 'pause', 'burst', 'mixed']
 MAX_STREAM = 40000
